@@ -335,11 +335,12 @@ class Recorder:
                 m = wire.parse(data)
                 qu = (not m.is_response) and any(q.cls & 0x8000 for q in m.questions)
                 tc = bool(m.tc)
+                probe = bool(m.authorities)
             except wire.WireError:
-                qu = tc = False
+                qu = tc = probe = False
             if qu and mode == 'allnq':
                 return 1             # every datagram except queries with a QU question (whose copies are answered, finding D9)
-            self.dup_log.append({'t': self.net.now(), 'qu': qu, 'tc': tc, 'n': self.inj_count})
+            self.dup_log.append({'t': self.net.now(), 'qu': qu, 'tc': tc, 'probe': probe, 'n': self.inj_count})
             return 2
         return 1
 
